@@ -71,6 +71,10 @@ def build_coq():
     theorem computed over the regenerated tables) stops only what depends on it; .vo files older than
     their source are removed so that nothing is checked against a stale library.  Returns (all built, log)."""
     with Lock("coq"):
+        # the translated files are regenerated from /repo's current source before every build (written only when changed)
+        import gen_tables, gen_expr, gen_link
+        for g in (gen_tables, gen_expr, gen_link):
+            g.generate()
         mk, proj = os.path.join(COQ, "Makefile"), os.path.join(COQ, "_CoqProject")
         if not os.path.exists(mk) or os.path.getmtime(mk) < os.path.getmtime(proj):
             sh("coq_makefile -f _CoqProject -o Makefile", cwd=COQ)
@@ -518,7 +522,7 @@ TRUSTED_BASE = [
     "extraction: ExtrOcamlBasic only (bool, option, list, prod, unit, sumbool mapped to OCaml's); Z/N/positive/nat stay Coq inductives; ocamlfind ocamlopt; hand-written ocaml/driver.ml case parser/printer",
     "correspondence harness /verif/harness (Rust, in-memory FileSystem) and the Python drivers/generators/oracles in /verif/lib",
     "the hand-written Gallina model of the Rust code (modelled, not verified: all Rust code, rustc, std, clap, path-absolutize, microserde, fxhash, the OS)",
-    "translators lib/gen_tables.py (regular expressions over the match arms of the nine name tables) and lib/gen_expr.py (a small parser for the Rust expressions in the 26 pure arms of Expr::evaluate_inner, with their i32/u32/u16/bool meaning over Z)",
+    "translators lib/gen_tables.py (regular expressions over the match arms of the nine name tables and the six Display impls), lib/gen_expr.py (a small parser for the Rust expressions in the 26 pure arms of Expr::evaluate_inner, with their i32/u32/u16/bool meaning over Z) and lib/gen_link.py (the range test and the stores of the five Link arms of Module::link and the write_all hand-over, by brace matching, the same expression parser and three store idioms)",
 ]
 ASSUMPTIONS = [
     "the model is tied to the code by differential testing on generated cases, not by a proof about Rust semantics",
